@@ -2,7 +2,7 @@
 import numpy as np
 from symx.core import *
 from symx.core import z3
-from symx.npproxy import NpProxy, shadow
+from symx.npproxy import NpProxy, LinalgProxy, shadow
 from symx.harness import Case, unarr
 import symx.harness  # noqa (puts the repo on sys.path)
 import wannierberri.data_K.data_K as DK, wannierberri.utility as U, wannierberri.grid.tetrahedron as T
@@ -15,11 +15,14 @@ PROPERTY = "C27"
 FUNCTIONS = ["wannierberri.data_K.data_K.Data_K.dEig_inv/D_H/Dcov/covariant", "wannierberri.formula.covariant.Omega.nn (internal terms)",
              "wannierberri.formula.basic.tildeFc (AHC_test formula)", "wannierberri.formula.formula.Formula.__init__/Formula_ln.trace/Matrix_ln",
              "wannierberri.calculators.tabulate.Tabulator.__call__ / BerryCurvature", "wannierberri.calculators.static.StaticCalculator.__call__ / AHC",
-             "wannierberri.grid.tetrahedron.get_bands_in_range/get_bands_below_range/get_borders", "wannierberri.data_K.data_K.Data_K.get_bands_in_range_groups"]
+             "wannierberri.grid.tetrahedron.get_bands_in_range/get_bands_below_range/get_borders", "wannierberri.data_K.data_K.Data_K.get_bands_in_range_groups",
+             "wannierberri.data_K.data_K_R.Data_K_R.__init__/HH_K/Xbar/_R_to_k_H + Rvectors.R_to_k/derivative (pipeline cases, evaluate_k's berry_curvature_internal_terms tabulator)"]
 BOUNDS = dict(quick=dict(nb="1..3 (formula, all set partitions into band groups), 2..3 (Tabulator, AHC)", spectrum="symbolic sorted reals; every pattern of gaps "
                          "below/above the 1e-7 cut of dEig_inv and the symbolic degeneracy threshold is a path", dH="arbitrary symbolic Hermitian (H gauge)",
-                         Efermi="symbolic grid EF0+i*dEF, 2 points, top level >= all bands"),
-              thorough=dict(nb="1..4 (formula), 2..4 (Tabulator), 2..3 (AHC, 2..3 Fermi levels)", spectrum="as quick", dH="as quick", Efermi="as quick"))
+                         Efermi="symbolic grid EF0+i*dEF, 2 points, top level >= all bands",
+                         pipeline="real Data_K_R on 3 R-vectors with symbolic Hermitian H(R) at a concrete k: nb=2 with an arbitrary symbolic complex eigenvector matrix, nb=3 with U=1"),
+              thorough=dict(nb="1..4 (formula), 2..4 (Tabulator), 2..3 (AHC, 2..3 Fermi levels)", spectrum="as quick", dH="as quick", Efermi="as quick",
+                            pipeline="as quick plus nb=3 with an arbitrary symbolic complex eigenvector matrix"))
 EXPLANATION = ("A Data_K_R shell carries a symbolic sorted spectrum and an arbitrary symbolic Hermitian velocity matrix (plus arbitrary AA/OO matrices that must not "
                "enter); the real dEig_inv, D_H, Omega(external_terms=False), Tabulator and AHC run on it, every threshold comparison forks, and the sum over all band "
                "groups / bands (and the AHC sea value at a Fermi level above all bands) is shown to be the zero rational function by normalisation + z3.")
@@ -27,7 +30,8 @@ ASSUMPTIONS = ["band energies sorted ascending (eigh contract)", "degeneracy thr
 OUTSIDE = ["second sentence of C27 (Chern quantisation up to discretisation error): convergence statement, not applicable to solver checking",
            "the eigen-decomposition itself (H(k) -> E, U): the shell starts from the H-gauge matrices, which for any U are Hermitian",
            "tetrahedron weights (tetra=True) and nb above the stated bounds", "models.py builders and the value of factors.factor_ahc (a non-zero constant cannot affect a zero)"]
-STUBS = ["math.ceil in calculators/static.py: exact ceil by forking over the (bounded) integer candidates", "np via module-level NpProxy (allocation -> object arrays)"]
+STUBS = ["np.linalg.eigh (pipeline cases): returns the harness's symbolic sorted spectrum and an ARBITRARY complex matrix as eigenvectors (U^+ dH U is Hermitian for any U, so the sum rule must hold for all of them)",
+         "system / grid objects of the pipeline cases: attribute holders (num_wann, real_lattice, a real Rvectors, R-matrix dict; FFT=(1,1,1))", "math.ceil in calculators/static.py: exact ceil by forking over the (bounded) integer candidates", "np via module-level NpProxy (allocation -> object arrays)"]
 
 MODS = [DK, U, T, COV, FRM, ELE, BAS, TAB, ST, KB, ER]
 
@@ -153,6 +157,69 @@ def case_ahc(rec, nb, nEF, kramers):
     rec.explore(body, ass)
 
 
+# ---- through the real Data_K_R pipeline (R-space Hamiltonian -> R_to_k -> derivative -> _rotate) with an arbitrary 'eigenvector' matrix -----------------------
+class _EighStub(LinalgProxy):
+    def __init__(s, real, E, Umat):
+        super().__init__(real)
+        s.E, s.U = E, Umat
+
+    def eigh(s, a, *args, **kw):
+        return s.E.copy(), s.U.copy()
+
+
+class _SysStub:
+    force_internal_terms_only = False
+    is_phonon = False
+
+    def __init__(s, nb, XR, rvec):
+        s.num_wann, s._XX_R, s.rvec, s.real_lattice = nb, XR, rvec, rvec.lattice
+
+    def has_R_mat(s, k):
+        return k in s._XX_R
+
+    def get_R_mat(s, k):
+        return s._XX_R[k]
+
+
+class _Grid:
+    FFT = np.array([1, 1, 1])
+
+
+IR3 = np.array([[0, 0, 0], [1, 0, 0], [-1, 0, 0]])
+LATT = np.array([[1.0, 0.25, 0], [0, 1.5, 0], [0.5, 0, 2.0]])
+K0 = np.array([[0.125, 0.25, -0.375]])
+
+
+def _system(nb, HR):
+    import wannierberri.fourier.rvectors as RV
+    rvec = RV.Rvectors(lattice=LATT, iRvec=IR3, shifts_left_red=np.array([[0.0, 0, 0], [0.25, 0.5, 0.125], [0.5, 0.25, 0.75]][:nb]))
+    return _SysStub(nb, dict(Ham=HR), rvec)
+
+
+def case_pipeline(rec, nb, generic_U):
+    import wannierberri.fourier.rvectors as RV, wannierberri.fourier.fft as FFT, wannierberri.data_K.data_K_R as DKR, importlib
+    EK = importlib.import_module("wannierberri.evaluate_k")
+    E = symvec("E", (1, nb))
+    Umat = symvec("U", (1, nb, nb), real=False) if generic_U else lift(np.eye(nb))[None].view(SymArray)
+    thr = SymC.var("thr")
+    shadow(MODS + [RV, FFT, DKR], proxy=NpProxy(linalg=_EighStub(np.linalg, E, Umat)))
+    HR = hermR("H", IR3, nb)
+    tab = EK.available_quantities["berry_curvature_internal_terms"]
+
+    def body(rec):
+        rec.witness = lambda env: dict(test="pipeline", nb=nb, E=env.val(E[0]).tolist(), U=env.arr(Umat), HR=env.arr(HR), thr=env.val(thr))
+        dk = Data_K_R(_system(nb, HR.copy()), k_list=K0.copy(), grid=_Grid())
+        old = tab.degen_thresh
+        tab.degen_thresh = thr
+        try:
+            data = tab(dk).data
+        finally:
+            tab.degen_thresh = old
+        rec.eq("evaluate_k's berry_curvature_internal_terms tabulator: sum over bands == 0", data[0].sum(axis=0), sarr([SymC.of(0)] * 3),
+               key="berry_curvature_internal_terms through Data_K_R: sum over bands != 0")
+    rec.explore(body, sorted_ass(E) + [thr.zreal() > 0])
+
+
 def cases(tier, seed):
     q = tier == "quick"
     out = []
@@ -166,6 +233,10 @@ def cases(tier, seed):
                 continue
             out.append(Case(f"tabulator nb={nb} kramers={kr}", case_tabulator, dict(nb=nb, kramers=kr, via="Tabulator"), timeout=1100))
         out.append(Case(f"tabulator BerryCurvature nb={nb}", case_tabulator, dict(nb=nb, kramers=False, via="BerryCurvature"), timeout=1100))
+    out.append(Case("pipeline Data_K_R nb=2 arbitrary U", case_pipeline, dict(nb=2, generic_U=True), timeout=1100))
+    out.append(Case("pipeline Data_K_R nb=3 U=1", case_pipeline, dict(nb=3, generic_U=False), timeout=1100))
+    if not q:
+        out.append(Case("pipeline Data_K_R nb=3 arbitrary U", case_pipeline, dict(nb=3, generic_U=True), timeout=1100))
     for nb in (2, 3):
         for nEF in ((2,) if q else (2, 3)):
             for kr in (False, True):
@@ -188,6 +259,33 @@ def replay(rec):
 
 def _replay(rec):
     w = rec["witness"]
+    if w["test"] == "pipeline":
+        import importlib
+        EK = importlib.import_module("wannierberri.evaluate_k")
+        nb = w["nb"]
+        E, Umat, HR = np.array(w["E"], dtype=float)[None], unarr(w["U"]).astype(complex), unarr(w["HR"]).astype(complex)
+        if np.abs(HR).max() == 0 or np.abs(Umat).max() == 0:
+            rng = np.random.default_rng(3)
+            HR = rng.normal(size=HR.shape) + 1j * rng.normal(size=HR.shape)
+            HR[2] = HR[1].conj().T
+            HR[0] = HR[0] + HR[0].conj().T
+            Umat = (rng.normal(size=Umat.shape) + 1j * rng.normal(size=Umat.shape))
+        if nb > 1 and np.any(np.diff(E[0]) <= 0):
+            E = E + 0.37 * np.arange(nb)[None]
+        real_eigh = np.linalg.eigh
+        np.linalg.eigh = lambda a, *x, **k: (E.copy(), Umat.copy())
+        try:
+            dk = Data_K_R(_system(nb, HR.copy()), k_list=K0.copy(), grid=_Grid())
+            tab = EK.available_quantities["berry_curvature_internal_terms"]
+            old, tab.degen_thresh = tab.degen_thresh, (w["thr"] or 1e-4)
+            try:
+                data = tab(dk).data
+            finally:
+                tab.degen_thresh = old
+        finally:
+            np.linalg.eigh = real_eigh
+        s_ = np.abs(data[0].sum(axis=0)).max()
+        return bool(s_ > 1e-9 * (1 + np.abs(data).max())), f"|sum over bands| = {s_:.3e} (max |Omega_n| = {np.abs(data).max():.3e})"
     E = np.array(w["E"], dtype=float)
     nb = len(E)
     V, A, O = unarr(w["V"]).astype(complex), unarr(w["A"]).astype(complex), unarr(w["O"]).astype(complex)
